@@ -240,7 +240,6 @@ func TestVerifC37(t *testing.T) {
 	targets := []wire.Target{
 		{Name: "Handle/syn", Cases: synCases, Run: handle(c37Picker{true}, lightnode.DefaultLightNodeLimit)},
 		{Name: "Handle/ack(picker accepts)", Cases: ackCases, Run: handle(c37Picker{true}, lightnode.DefaultLightNodeLimit)},
-		{Name: "Handle/ack(no picker)", Cases: ackCases, Run: handle(nil, lightnode.DefaultLightNodeLimit)},
 		{Name: "Handshake/synack", Cases: saCases, Run: func(x *mc.X, c wire.Case) string {
 			s := e.service(x, nil, lightnode.DefaultLightNodeLimit)
 			st := wire.NewStream(c.Data)
@@ -253,9 +252,10 @@ func TestVerifC37(t *testing.T) {
 		}},
 	}
 	if mc.Thorough() {
+		targets = append(targets, wire.Target{Name: "Handle/ack(no picker)", Cases: ackCases, Run: handle(nil, lightnode.DefaultLightNodeLimit)})
 		targets = append(targets, wire.Target{Name: "Handle/ack(picker rejects, light limit 0)", Cases: ackCases, Run: handle(c37Picker{false}, 0)})
 	}
 	wire.Explore(t, func(cfg mc.Config, body func(*mc.X)) { mc.Run(t, cfg, body) }, "C37-handshake", map[string]interface{}{
-		"alphabet": "Syn: standard framing/wire faults + ObservedUnderlay{valid,absent,empty,1,len-1,len+1,2len,other,64KiB,prefixes,no /p2p,only /p2p,dns}; Ack: standard faults + Address{nil, empty message, all single and pairwise deviations of underlay(19) x overlay(9) x signature(8)} x NodeMode{full,absent,empty,00,ff,2 bytes,64KiB} x NetworkID{own,0,max} (at most pairwise deviations overall) + WelcomeMessage{empty,140,141,invalid UTF-8,64KiB}; SynAck: standard faults + Syn/Ack nil/empty combinations + the Syn and Ack grammars; Handle is run with an accepting picker, without picker and (thorough) with a rejecting picker/light limit 0",
+		"alphabet": "Syn: standard framing/wire faults + ObservedUnderlay{valid,absent,empty,1,len-1,len+1,2len,other,64KiB,prefixes,no /p2p,only /p2p,dns}; Ack: standard faults + Address{nil, empty message, all single and pairwise deviations of underlay(19) x overlay(9) x signature(8)} x NodeMode{full,absent,empty,00,ff,2 bytes,64KiB} x NetworkID{own,0,max} (at most pairwise deviations overall) + WelcomeMessage{empty,140,141,invalid UTF-8,64KiB}; SynAck: standard faults + Syn/Ack nil/empty combinations + the Syn and Ack grammars; Handle is run with an accepting picker and (thorough) without picker and with a rejecting picker/light limit 0",
 	}, targets)
 }
